@@ -15,9 +15,10 @@ import lib  # noqa: E402
 CUSTOM = '''
 from replicat.backends.base import Backend
 class Custom(Backend):
-    def __init__(self, connection_string, *, token='builtin-token', level=3, flag=False, legacy: bool = True, secret: str = 'builtin-secret'):
+    def __init__(self, connection_string, *, token='builtin-token', level=3, flag=False, legacy: bool = True, secret: str = 'builtin-secret', timeout=30):
         self.connection_string, self.token, self.level, self.flag = connection_string, token, level, flag
         self.legacy, self.secret = legacy, secret
+        self.timeout = timeout
     async def exists(self, name): return False
     async def upload(self, name, data): pass
     async def upload_stream(self, name, stream, length, chunk_size=1): pass
@@ -88,6 +89,10 @@ OPTIONS = {
         'cli': (['--secret', '4455'], 4455), 'env': ({'CUSTOM_SECRET': '4466'}, 4466),
         'profile': ('secret = 4477', 4477), 'default': ('secret = "4488"', 4488), 'builtin': 'builtin-secret',
         'get': lambda rec: rec['backend'].secret, 'backend': 'custom'},
+    'timeout': {   # the text `none` is a VALUE (None) wherever it is given, not "option absent"
+        'cli': (['--timeout', 'none'], None), 'env': ({'CUSTOM_TIMEOUT': 'None'}, None),
+        'profile': ('timeout = 9', 9), 'default': ('timeout = "none"', None), 'builtin': 30,
+        'get': lambda rec: rec['backend'].timeout, 'backend': 'custom'},
     'region': {    # s3c backend option
         'cli': (['--region', 'r-cli'], 'r-cli'), 'env': ({'S3C_REGION': 'r-env'}, 'r-env'),
         'profile': ('region = "r-profile"', 'r-profile'), 'default': ('region = "r-default"', 'r-default'), 'builtin': 'REQUIRED',
@@ -189,7 +194,7 @@ def main():
                             how, _ = spec[s]
                             how = subst(how, tmp)
                             if s == 'cli':
-                                (argv_tail if opt in ('token', 'level', 'flag', 'region') else argv_front).extend(how)
+                                (argv_tail if opt in ('token', 'level', 'flag', 'region', 'legacy', 'secret', 'timeout') else argv_front).extend(how)
                             elif s == 'env':
                                 env.update(how)
                             elif s == 'profile':
@@ -241,6 +246,29 @@ def main():
             distinct.add(what)
             if err is None:
                 failures.append({'id': f'exclusive-{what}', 'class': None, 'case': {'what': what}, 'detail': 'mutually exclusive options were accepted'})
+        # custom settings of init / add-key: the flat CLI spelling means the documented nested structure (README "Custom settings")
+        for argv, want in (
+            (['init', '--encryption.cipher.key-bits', '128', '--hashing.name', 'sha2', '--hashing.bits', '256', '--encryption.kdf.n', '4'],
+             {'encryption': {'cipher': {'key_bits': 128}, 'kdf': {'n': 4}}, 'hashing': {'name': 'sha2', 'bits': 256}}),
+            (['init', '--encryption.cipher.key_bits', '192'], {'encryption': {'cipher': {'key_bits': 192}}}),
+            (['init', '--encryption', 'none'], {'encryption': None}),
+            (['init', '--chunking.min-length', '128_000', '--chunking.max_length', '5120000'], {'chunking': {'min_length': 128000, 'max_length': 5120000}}),
+            (['add-key', '--encryption.kdf.name', 'blake2b', '--encryption.kdf.length', '32'], {'encryption': {'kdf': {'name': 'blake2b', 'length': 32}}}),
+            (['init'], None),
+        ):
+            rec, err = run_main(argv[:1] + ['--config', str(tmp / 'replicat.toml'), '-r', 'custom:conn'] + argv[1:], {}, '', tmp)
+            cases += 1
+            distinct.add(' '.join(argv))
+            got = rec.get('settings', 'NO-HANDLER-CALL')
+            if err is not None or got != want:
+                failures.append({'id': 'settings-' + '_'.join(argv[1:3] or ['none']), 'class': None, 'case': {'argv': argv},
+                                 'detail': {'error': err, 'settings': repr(got), 'documented': repr(want)}})
+        # a flat key that is both a value and a parent is a conflict, not a silent choice
+        rec, err = run_main(['init', '--config', str(tmp / 'replicat.toml'), '-r', 'custom:conn', '--encryption', 'none', '--encryption.cipher.key-bits', '128'], {}, '', tmp)
+        cases += 1
+        if err is None:
+            failures.append({'id': 'settings-conflict', 'class': None, 'case': {'what': '--encryption none with --encryption.cipher.key-bits'},
+                             'detail': {'settings': repr(rec.get('settings'))}})
     lib.emit({'status': 'ok', 'cases': cases, 'distinct': len(distinct), 'failures': failures[:15], 'samples': samples,
               'exhaustive': False, 'exhaustive_part': 'all subsets of the sources of each listed option', 'reproduced': bool(failures)})
 
